@@ -30,7 +30,7 @@ ASSUMPTIONS = ['vt.benchref is the definition of what a bench text denotes', 'la
 REQUIRED = {'mon:format_circuit.checked': 200, 'mon:save_to_file.checked': 20, 'mon:from_bench_string.checked': 200,
             'mon:from_bench_file.checked': 20, 'labels:keyword': 20, 'labels:digits': 20, 'labels:brackets': 20,
             'layout:use_before_def': 50, 'const_with_operands': 10, 'printed_after_rewrite': 20,
-            'pass_ran:minimize_subcircuits': 20, 'pass_ran:cleanup': 10}
+            'pass_ran:minimize_subcircuits': 20, 'pass_ran:cleanup': 10, 'bigfile_roundtrips': 16}
 
 CUR = {'ctx': None, 'case': None, 'admissible': False}
 _IDENT = re.compile(r'^[A-Za-z0-9_.\[\]@]+$')
@@ -43,6 +43,12 @@ def shards(tier, seed):
             for _ in range(16)]
     _out.append({'kind': 'deep', 'count': 2 if tier == 'quick' else 20, 'budget_s': budget,
                  'depths': netgen.DEEP_QUICK if tier == 'quick' else netgen.DEEP_THOROUGH})
+    pads = list(range(0, 32 if tier == 'quick' else 160))
+    nparts = 4 if tier == 'quick' else 8
+    for part in range(nparts):
+        sub = pads[part::nparts]
+        _out.append({'kind': 'bigfile', 'gates': 1500 if tier == 'quick' else 4000, 'paddings': sub, 'count': len(sub),
+                     'nseed': 12345 + seed, 'budget_s': budget})
     _out += [{'kind': 'after_pass', 'count': 40 if tier == 'quick' else 3000, 'budget_s': budget} for _ in range(4)]
     if tier == 'thorough':
         _out.append({'kind': 'suite', 'select': ['tests/cirbo/core'], 'budget_s': 900})
@@ -304,6 +310,36 @@ def check_after_pass(case, ctx):
     ctx.case('%s:%s:after' % (refsem.structural_hash(net), case['pass']), changed, cls='check:after_pass')
 
 
+def check_bigfile(case, ctx):
+    """A netlist of benchmark size written to a file and loaded again, once per padding length: the padding (length of
+    an unused input's label) shifts every byte offset by one, so every alignment of line ends relative to any
+    fixed-size read block occurs."""
+    from cirbo.core.circuit import Circuit
+    CUR['case'] = case
+    rng = random.Random(case['rseed'])
+    net = netgen.rand_net(rng, n_in=6, n_g=case['gates'], shape='random', max_arity=3, n_out=3, const_operands=False)
+    pad = 'pad_' + 'p' * case['padding']
+    g = {pad: ('INPUT', ())}
+    g.update(net.gates)
+    net = refsem.Net([pad] + list(net.inputs), list(net.outputs), g)
+    with monitor.suspended():
+        c = netgen.build(net)
+    d = tempfile.mkdtemp(prefix='vt_c11_')
+    try:
+        p = os.path.join(d, 'big.bench')
+        c.save_to_file(p)
+        size = os.path.getsize(p)
+        Circuit.from_bench_file(p)
+        ctx.count('bigfile_roundtrips')
+        ctx.info['bigfile_max_bytes'] = max(ctx.info.get('bigfile_max_bytes', 0), size)
+    except Exception as e:
+        ctx.unexpected('round trip (large file)', e, case)
+    finally:
+        import shutil
+        shutil.rmtree(d, ignore_errors=True)
+    ctx.case('bigfile:%d:%d:%d' % (case['gates'], case['padding'], case['rseed']), True, cls='check:bigfile')
+
+
 def gen_after_pass(rng):
     from vt.props import c04
     shape, net = c04.gen_net(rng)
@@ -339,7 +375,9 @@ def run_shard(spec, ctx):
         if ctx.out_of_time():
             ctx.count('stopped_on_budget')
             break
-        if spec.get('kind') == 'after_pass':
+        if spec.get('kind') == 'bigfile':
+            check_bigfile({'kind': 'bigfile', 'gates': spec['gates'], 'padding': spec['paddings'][i], 'rseed': spec['nseed']}, ctx)
+        elif spec.get('kind') == 'after_pass':
             check_after_pass(gen_after_pass(ctx.rng), ctx)
         else:
             check_case(gen_case(ctx.rng, spec), ctx)
@@ -347,7 +385,9 @@ def run_shard(spec, ctx):
 
 def replay(case, ctx):
     install(ctx)
-    if case.get('kind') == 'after_pass':
+    if case.get('kind') == 'bigfile':
+        check_bigfile(case, ctx)
+    elif case.get('kind') == 'after_pass':
         check_after_pass(case, ctx)
     else:
         check_case(case, ctx)
